@@ -43,6 +43,9 @@ use serde_json::{json, Map, Value};
 use std::collections::{BTreeMap, BTreeSet};
 use std::panic::{catch_unwind, AssertUnwindSafe};
 
+#[path = "c16_io.rs"]
+mod io;
+
 const D: [DistanceUnit; 5] = [
     DistanceUnit::Meters,
     DistanceUnit::Kilometers,
@@ -1406,6 +1409,23 @@ pub fn run(ctx: &mut Ctx) -> &'static str {
             // every fourth edge case is a bent-linestring scenario (centroid != bounding-box midpoint)
             edge_case(ctx, idx, &files, None, i % 8 == 7);
         }
+    }
+    // the rest of the anchor files, function by function (see c16_io.rs)
+    for _ in 0..ctx.n(1500, 20000) {
+        let Some(idx) = ctx.begin() else { continue };
+        io::ext_case(ctx, idx);
+    }
+    for i in 0..ctx.n(600, 6000) {
+        let Some(idx) = ctx.begin() else { continue };
+        if i % 2 == 0 {
+            io::vertex_builder_case(ctx, idx, &files);
+        } else {
+            io::edge_builder_case(ctx, idx, &files);
+        }
+    }
+    for _ in 0..ctx.n(800, 10000) {
+        let Some(idx) = ctx.begin() else { continue };
+        io::haversine_case(ctx, idx);
     }
     "non-trivial: well-formed coordinate fields and at least two network elements; fingerprint = geometry set, tolerance, coordinates (and for edges the whole query and restriction table)"
 }
